@@ -14,7 +14,9 @@ import pandas as pd
 PLAIN_LEVELS = [["a", "b"], ["a", "b", "c"], ["b", "a", "d", "c"], ["u", "v"], ["p", "q", "r"],
                 ["A", "a", "B"], ["x1", "x10", "x2"], ["lo", "mid", "hi", "top", "max"]]
 HOSTILE_LEVELS = [["a:b", "a", "b"], ["l|m", "n"], ["[k]", "k", "k]"], ["a b", "a  b", "ab"],
-                  ["", "e"], ["é", "e", "z"], ["1", "10", "2"], ["x[a]", "x", "a"], ["(p)", "p", "1|g"]]
+                  ["", "e"], ["é", "e", "z"], ["1", "10", "2"], ["x[a]", "x", "a"], ["(p)", "p", "1|g"],
+                  # MICRO SIGN / ANGSTROM SIGN (rewritten by Unicode normalisation), a backslash (no escapes in formulas)
+                  ["\u00b5g", "mg", "\u212b"], ["a\\nb", "ab", "Z\u00fcrich"]]
 ORDERED_DECL = [["lo", "mid", "hi"], ["z", "y", "x", "w"], ["b", "a"], ["s3", "s1", "s2"]]
 CODE_SETS = [[1, 2], [3, 7, 10], [0, 1, 2, 3], [10, 2, 33], [-1, 5]]
 
